@@ -1421,12 +1421,256 @@ static bool disp_dispatch(std::vector<i64> const& sizes, std::size_t pos, std::v
 // ------------------------------------------------------------------------- entry
 // The harness can be compiled as ONE translation unit (no C07_PART) or, to shorten the rebuild after
 // every change of /repo/include, as C07_NPARTS units (-DC07_PART=k, props/C07/pcxx.py) that each
-// instantiate a group of families; part 0 holds run_case and main.
+// instantiate a group of families; part 0 holds run_case and main; parts 10-13 are the special-member families
+// (c07_sm.hpp is included by those parts only).
 #ifdef C07_PART
 #define C07_IN(k) (C07_PART == (k))
 #else
 #define C07_IN(k) 1
 #endif
+
+// ------------------------------------------------------------------------- special-member families (sm*)
+// Alternatives Sm<F> (c07_sm.hpp): each of the five special members is trivial or user-provided (logged).
+// One runner over three wrapper policies; objects a, b (plus c of optional<SmSrc> for the optional policy).
+//   E t i v  x.emplace<i>(v)            (optional: i = 0 reset(), i = 1 emplace(v); expected: i = 0 emplace(v))
+//   I t i v  x = W(in_place_index<i>, v) (optional: W(nullopt) / W(in_place, v); expected: in_place / unexpect)
+//   C x = y   M x = move(y)   K { W tmp(y); }   J { W tmp(move(y)); }   F x = x   G x = move(x)
+//   optional only:  Q 0 0 v  c.emplace(v)   R  c.reset()   x  x = as_const(c)   y  x = move(c)
+// after every step: index and value of a and b (and c), of the temporary of K / J, the events of the step;
+// at the end: the events of destroying b and a.  In front: the nine static traits of every alternative and
+// of the wrapper (for expected without the two assignment-triviality bits: [expected.object.assign] does not
+// say when the assignment is trivial and libstdc++'s never is).
+#if C07_IN(10) || C07_IN(11) || C07_IN(12) || C07_IN(13)
+#include "c07_sm.hpp"
+
+template <typename T>
+static auto sm_arg(long v) -> int
+{
+    return static_cast<int>(v); // int and Sm<F> are both constructed from an int
+}
+
+template <typename Lib, typename... Ts>
+struct SmVarP {
+    using W                        = typename Lib::template variant<Ts...>;
+    static constexpr std::size_t N = sizeof...(Ts);
+    static constexpr unsigned mask = 0x1ffU;
+    static constexpr bool has_c    = false;
+    template <std::size_t I>
+    using alt = std::tuple_element_t<I, std::tuple<Ts...>>;
+    template <std::size_t I>
+    static auto make(long v) -> W
+    {
+        return W(Lib::template ipi<I>(), sm_arg<alt<I>>(v));
+    }
+    template <std::size_t I>
+    static void emplace(W& x, long v)
+    {
+        x.template emplace<I>(sm_arg<alt<I>>(v));
+    }
+    static auto index(W const& x) -> std::size_t { return x.index(); }
+    static auto value(W& x) -> long
+    {
+        long r = -1;
+        sm_with_index<N>(x.index(), [&](auto i) { r = sm_val(*Lib::template get_if<decltype(i)::value>(&x)); });
+        return r;
+    }
+    template <typename Fn>
+    static void traits(Fn&& f)
+    {
+        (f(sm_traits<Ts>()), ...);
+    }
+};
+
+template <typename Lib, typename T>
+struct SmOptP {
+    using W                        = typename Lib::template optional<T>;
+    using C                        = typename Lib::template optional<SmSrc>;
+    static constexpr std::size_t N = 2;
+    static constexpr unsigned mask = 0x1ffU;
+    static constexpr bool has_c    = true;
+    template <std::size_t I>
+    static auto make(long v) -> W
+    {
+        if constexpr (I == 0) {
+            return W(Lib::nullopt);
+        } else {
+            return W(Lib::in_place, static_cast<int>(v));
+        }
+    }
+    template <std::size_t I>
+    static void emplace(W& x, long v)
+    {
+        if constexpr (I == 0) {
+            x.reset();
+        } else {
+            x.emplace(static_cast<int>(v));
+        }
+    }
+    static auto index(W const& x) -> std::size_t { return x.has_value() ? 1 : 0; }
+    static auto value(W& x) -> long { return x.has_value() ? sm_val(*x) : 0; }
+    template <typename Fn>
+    static void traits(Fn&& f)
+    {
+        f(sm_traits<T>());
+    }
+};
+
+template <typename Lib, typename T, typename E>
+struct SmExpP {
+    using W                        = typename Lib::template expected<T, E>;
+    static constexpr std::size_t N = 2;
+    static constexpr unsigned mask = 0x1f3U; // without "trivially copy / move assignable"
+    static constexpr bool has_c    = false;
+    template <std::size_t I>
+    static auto make(long v) -> W
+    {
+        if constexpr (I == 0) {
+            return W(Lib::in_place, static_cast<int>(v));
+        } else {
+            return W(Lib::unexpect, static_cast<int>(v));
+        }
+    }
+    template <std::size_t I>
+    static void emplace(W& x, long v)
+    {
+        if constexpr (I == 0) {
+            x.emplace(static_cast<int>(v));
+        } else {
+            x = W(Lib::unexpect, static_cast<int>(v)); // (not generated: expected has no in-place way to hold an error)
+        }
+    }
+    static auto index(W const& x) -> std::size_t { return x.has_value() ? 0 : 1; }
+    static auto value(W& x) -> long { return x.has_value() ? sm_val(*x) : sm_val(x.error()); }
+    template <typename Fn>
+    static void traits(Fn&& f)
+    {
+        f(sm_traits<T>());
+        f(sm_traits<E>());
+    }
+};
+
+// I0: the index the two objects start with (an int alternative / disengaged): constructing it logs nothing
+template <typename P, std::size_t I0>
+struct SmRunner {
+    using W = typename P::W;
+
+    static void events(Out& o)
+    {
+        o.tok("ev");
+        for (auto const& e : g_sm_ev) { o.tok(e); }
+        g_sm_ev.clear();
+    }
+    static void state(Out& o, W& x) { o.num(static_cast<i64>(P::index(x))).num(P::value(x)); }
+
+    static void run(Out& o, std::vector<Step> const& steps)
+    {
+        g_sm_ev.clear();
+        o.tok("ok").tok("tr");
+        P::traits([&](unsigned t) { o.num(t); });
+        o.num(sm_traits<W>() & P::mask).tok(";");
+        {
+            W a = P::template make<I0>(0);
+            W b = P::template make<I0>(0);
+            auto c = [] {
+                if constexpr (P::has_c) {
+                    return typename P::C{};
+                } else {
+                    return 0;
+                }
+            }();
+            g_sm_ev.clear();
+            for (auto const& st : steps) {
+                W& x      = st.t == 0 ? a : b;
+                W& y      = st.t == 0 ? b : a;
+                bool done = true;
+                bool tmp  = false;
+                std::size_t ti = 0;
+                long tv   = 0;
+                switch (st.opc) {
+                case 'E':
+                    done = st.p >= 0 && sm_with_index<P::N>(static_cast<std::size_t>(st.p), [&](auto i) {
+                        P::template emplace<decltype(i)::value>(x, st.q);
+                    });
+                    break;
+                case 'I':
+                    done = st.p >= 0 && sm_with_index<P::N>(static_cast<std::size_t>(st.p), [&](auto i) {
+                        x = P::template make<decltype(i)::value>(st.q);
+                    });
+                    break;
+                case 'C': x = y; break;
+                case 'M': x = std::move(y); break;
+                case 'K': {
+                    W t(y);
+                    tmp = true;
+                    ti  = P::index(t);
+                    tv  = P::value(t);
+                    break;
+                }
+                case 'J': {
+                    W t(std::move(y));
+                    tmp = true;
+                    ti  = P::index(t);
+                    tv  = P::value(t);
+                    break;
+                }
+                case 'F': {
+                    W& r = x;
+                    x    = r;
+                    break;
+                }
+                case 'G': {
+                    W& r = x;
+                    x    = std::move(r);
+                    break;
+                }
+                default:
+                    done = false;
+                    if constexpr (P::has_c) {
+                        done = true;
+                        switch (st.opc) {
+                        case 'Q': c.emplace(SmSrc{static_cast<int>(st.q)}); break;
+                        case 'R': c.reset(); break;
+                        case 'x': x = std::as_const(c); break;
+                        case 'y': x = std::move(c); break;
+                        default: done = false; break;
+                        }
+                    }
+                    break;
+                }
+                if (!done) { o.tok("bad-step"); }
+                state(o, a);
+                state(o, b);
+                if constexpr (P::has_c) { o.num(c.has_value() ? 1 : 0).num(c.has_value() ? c->v : 0); }
+                if (tmp) { o.tok("tmp").num(static_cast<i64>(ti)).num(tv); }
+                events(o);
+                o.tok(";");
+            }
+        }
+        o.tok("fin");
+        events(o);
+    }
+};
+
+template <template <typename, typename...> class PT, std::size_t I0, typename... Ts>
+static void run_sm(Toks& in, Out& impl, Out& ref)
+{
+    auto steps = read_steps(in);
+    guarded(impl, [&](Out& o) { SmRunner<PT<EtlLib, Ts...>, I0>::run(o, steps); });
+    SmRunner<PT<StdLib, Ts...>, I0>::run(ref, steps);
+}
+
+// op = "<family>.<F>": the flag set F of the class alternative
+template <unsigned Lo, unsigned Hi, typename Fn>
+static auto sm_flags(std::string const& op, char const* family, Fn&& f) -> bool
+{
+    auto const n = std::strlen(family);
+    if (op.compare(0, n, family) != 0 || op.size() <= n) { return false; }
+    auto const fl = static_cast<unsigned>(std::atoi(op.c_str() + n));
+    if (op != family + std::to_string(fl) || fl < Lo || fl >= Hi) { return false; }
+    return sm_with_index<Hi - Lo>(fl - Lo, [&](auto i) { f(std::integral_constant<unsigned, Lo + decltype(i)::value>{}); });
+}
+#endif
+
 
 namespace c07parts {
 bool part0(std::string const& op, Toks& in, Out& impl, Out& ref);
@@ -1437,6 +1681,10 @@ bool part4(std::string const& op, Toks& in, Out& impl, Out& ref);
 bool part5(std::string const& op, Toks& in, Out& impl, Out& ref);
 bool part8(std::string const& op, Toks& in, Out& impl, Out& ref);
 bool part9(std::string const& op, Toks& in, Out& impl, Out& ref);
+bool part10(std::string const& op, Toks& in, Out& impl, Out& ref);
+bool part11(std::string const& op, Toks& in, Out& impl, Out& ref);
+bool part12(std::string const& op, Toks& in, Out& impl, Out& ref);
+bool part13(std::string const& op, Toks& in, Out& impl, Out& ref);
 // the dispatcher cases whose first variant has 3 / 4 alternatives (the bulk of the visit instantiations)
 bool disp3(std::vector<i64> const& sizes, std::vector<i64> const& idx, Out& impl, Out& ref);
 bool disp4(std::vector<i64> const& sizes, std::vector<i64> const& idx, Out& impl, Out& ref);
@@ -1531,6 +1779,36 @@ bool c07parts::part9(std::string const& op, Toks& in, Out& impl, Out& ref)
     return false;
 }
 #endif
+// special-member families: variant<int, Sm<F>>, optional<Sm<F>>, expected<Sm<F>, int>, expected<int, Sm<F>> for every
+// flag set F, and three-alternative lists mixing two flag sets
+#if C07_IN(10)
+bool c07parts::part10(std::string const& op, Toks& in, Out& impl, Out& ref)
+{
+    return sm_flags<0, 16>(op, "smv.", [&](auto f) { run_sm<SmVarP, 0, int, Sm<decltype(f)::value>>(in, impl, ref); });
+}
+#endif
+#if C07_IN(11)
+bool c07parts::part11(std::string const& op, Toks& in, Out& impl, Out& ref)
+{
+    if (op == "smw.a") { return run_sm<SmVarP, 1, Sm<2>, int, Sm<16>>(in, impl, ref), true; }
+    if (op == "smw.b") { return run_sm<SmVarP, 2, Sm<8>, Sm<1>, int>(in, impl, ref), true; }
+    if (op == "smw.c") { return run_sm<SmVarP, 0, int, Sm<4>, Sm<2>>(in, impl, ref), true; }
+    return sm_flags<16, 32>(op, "smv.", [&](auto f) { run_sm<SmVarP, 0, int, Sm<decltype(f)::value>>(in, impl, ref); });
+}
+#endif
+#if C07_IN(12)
+bool c07parts::part12(std::string const& op, Toks& in, Out& impl, Out& ref)
+{
+    return sm_flags<0, 32>(op, "smo.", [&](auto f) { run_sm<SmOptP, 0, Sm<decltype(f)::value>>(in, impl, ref); });
+}
+#endif
+#if C07_IN(13)
+bool c07parts::part13(std::string const& op, Toks& in, Out& impl, Out& ref)
+{
+    return sm_flags<0, 32>(op, "sme.", [&](auto f) { run_sm<SmExpP, 1, Sm<decltype(f)::value>, int>(in, impl, ref); })
+        || sm_flags<0, 32>(op, "smf.", [&](auto f) { run_sm<SmExpP, 0, int, Sm<decltype(f)::value>>(in, impl, ref); });
+}
+#endif
 #if C07_IN(0)
 bool c07parts::part0(std::string const& op, Toks& in, Out& impl, Out& ref)
 {
@@ -1555,7 +1833,8 @@ bool vh::run_case(std::string const& op, Toks& in, Out& impl, Out& ref)
     using namespace c07parts;
     // every part returns false without consuming tokens when the family is not its own
     return part0(op, in, impl, ref) || part1(op, in, impl, ref) || part2(op, in, impl, ref) || part3(op, in, impl, ref)
-        || part4(op, in, impl, ref) || part5(op, in, impl, ref) || part8(op, in, impl, ref) || part9(op, in, impl, ref);
+        || part4(op, in, impl, ref) || part5(op, in, impl, ref) || part8(op, in, impl, ref) || part9(op, in, impl, ref)
+        || part10(op, in, impl, ref) || part11(op, in, impl, ref) || part12(op, in, impl, ref) || part13(op, in, impl, ref);
 }
 
 VERIF_MAIN()
